@@ -6,6 +6,9 @@ resume_reading -> data_received(b"")) and to a recording transport, and is drive
 operations (feed_data / begin_http_chunk_receiving / end_http_chunk_receiving / feed_eof / set_exception, only sequences the
 HTTP payload parser can emit) interleaved with consumer operations (every public read method).  Fed bytes are position-coded.
 
+Consumers also push data back with unread_data (what they just read, part of it, more than it, other bytes; with a partly
+consumed head buffer, several buffers, pending chunk ends, after EOF, while a read call waits) between any two read calls.
+
 Oracle: vlib.refstream.RefStream (sequential model of the documented API) gives the expected outcome of every consumer call
 and the expected pause state; plus the loop-iteration invariant "reader blocked on an empty buffer and not at EOF =>
 protocol not paused", buffer accounting, at_eof/is_eof, the public water marks, final conservation, and (in dedicated shards)
@@ -39,8 +42,9 @@ TECHNIQUE = (
     "loop-iteration invariant for back-pressure; icontract class invariants on the real class"
 )
 LEVEL_TEXT = (
-    "Exploration: every legal interleaving of the 7 producer and 13 consumer operations up to length 5 (quick) / 6 (thorough) "
-    "for limits 1, 2, 4, each under up to four delivery variants (direct or flow-controlled producer x reader scheduled after "
+    "Exploration: every legal interleaving of the 7 producer and 15 consumer operations (unread_data three ways: foreign bytes, "
+    "rollback of the last result, rollback of the last byte; also issued while a read call waits) up to length 5 (quick) / 6 "
+    "(thorough) for limits 1, 2, 4, each under up to four delivery variants (direct or flow-controlled producer x reader scheduled after "
     "every producer operation or after a run of them), plus seeded random programs of 50-300 operations with tiny to default "
     "limits. Says: every read result, pause/resume decision and invariant held on these programs; nothing about longer "
     "programs outside the sampled ones, limit=0, or concurrent readers."
@@ -49,8 +53,10 @@ RULE = (
     "program = sequence of producer ops (feed_data 0/1/3 bytes [random: sizes around the water marks], begin/end chunk, feed_eof, "
     "set_exception; only what HttpPayloadParser(+DeflateBuffer) can emit: chunk brackets nested, data inside brackets when "
     "chunked, nothing after feed_eof) interleaved with consumer ops (read(1), read(2), read(-1), readany, readline, "
-    "readuntil('<>'), readexactly(2), readchunk, read_nowait(1), iter_chunked(2)/iter_chunks/iter_any one step, unread_data), at "
-    "most one blocked read outstanding; x limit x delivery variant (direct|gated, step|batch); followed by an epilogue that ends "
+    "readuntil('<>'), readexactly(2), readchunk, read_nowait(1), iter_chunked(2)/iter_chunks/iter_any one step, unread_data of "
+    "foreign bytes / of exactly the last result / of the last byte returned [random: the last k returned bytes with k below, at and "
+    "above the size of the last result, a prefix of the last result, the same with one byte changed, k foreign bytes; in any reader "
+    "state incl. after eof and while a read call waits]), at most one blocked read outstanding; x limit x delivery variant (direct|gated, step|batch); followed by an epilogue that ends "
     "the stream and drains it. non-trivial = at least one producer op reached the stream and one consumer op ran; distinct = "
     "distinct (ops, limit, variant, content offset)"
 )
@@ -84,7 +90,11 @@ EXH_PRODUCERS = [("D", 0), ("D", 1), ("D", 3), ("B", 0), ("E", 0), ("EOF", 0), (
 EXH_CONSUMERS = [
     ("read", 1), ("read", 2), ("read", -1), ("readany", 0), ("readline", 0), ("readuntil", 0), ("readexactly", 2),
     ("readchunk", 0), ("read_nowait", 1), ("iter_chunked", 2), ("iter_chunks", 0), ("iter_any", 0), ("unread", 0),
+    # unread_data as a rollback: exactly what the last read call returned / the last byte returned (less than, as much as
+    # or - after an empty result or another rollback - more than the last call returned)
+    ("unread", "back", -1), ("unread", "back", 1),
 ]
+UNREAD_MODES = ("back", "front", "flip", "flop", "foreign")
 EXH_LIMITS = (1, 2, 4)
 
 
@@ -355,7 +365,11 @@ class World:
         self.in_step = False
         self.round = 0
         self.reentrant: list = []
-        self.returned = bytearray()
+        self.returned = bytearray()  # bytes handed to the consumer, minus what it rolled back with unread_data
+        self.last = b""  # what the last completed read call returned
+        self.conservation_off = False
+        self.skip_empty_rollback = False  # enumeration: a rollback of nothing is the same program without it
+        self.illegal = "second-reader-while-blocked"
         self.sender_ends: list = []  # stream positions at which the producer ended an HTTP chunk
         self.flagged: list = []  # positions (bytes returned so far) at which readchunk said end_of_http_chunk
         self.only_readchunk = True
@@ -640,6 +654,11 @@ class World:
             self.in_step = False
             if r == "budget":
                 raise HarnessError("loop did not settle within 2000 iterations")
+            if active and self.call.parked:
+                # the only thing the loop can have had to run is the reader task: whatever released it (the model may
+                # regard the cause as optional), it has now seen the bytes pushed back while it waited
+                self.call.parked = False
+                self.cnt("unread-while-reader-blocked:reader-ran-afterwards")
         if active and (ran or self.dirty):
             # also when nothing was ready: a producer op that should have woken the reader and did not
             self.resolve()
@@ -659,7 +678,12 @@ class World:
             return True
         name, arg = op[0], op[1]
         s = self.stream
+        if name == "unread" and self.skip_empty_rollback and len(op) > 2 and not self.unread_bytes(op):
+            self.illegal = "rollback-of-nothing"
+            return False
         if self.task is not None:
+            if name == "unread":
+                return self.unread_while_blocked(op)
             if name != "read_nowait":
                 return False
             # documented: "Raises RuntimeError if other coroutine is waiting for stream."
@@ -685,7 +709,8 @@ class World:
             if len(sep) > 1:
                 self.used_sep2 = True
         elif name == "unread":
-            sep = UNREAD
+            sep = self.unread_bytes(op)
+            self.cnt("unread:" + self.unread_class(op, sep))
         call = m.new_call(name, arg if name in ("read", "readexactly", "read_nowait", "iter_chunked") else None, sep)
         self.call = call
         self.call_op = op
@@ -697,7 +722,7 @@ class World:
                 if name == "read_nowait":
                     v = s.read_nowait(arg)
                 else:
-                    v = s.unread_data(UNREAD)
+                    v = s.unread_data(sep)
                 self.sync_obs = ("done", v)
             except BaseException as e:
                 self.sync_obs = self.classify_exc(e)
@@ -731,6 +756,74 @@ class World:
             self.loop_settle()
         if not self.viol:
             self.settle()
+        return True
+
+    # ---- unread_data ------------------------------------------------------------------------------
+    def unread_bytes(self, op) -> bytes:
+        """the bytes an unread op pushes back, derived from what the reader has returned so far:
+        ("unread", 0)            two bytes that never occur in the fed stream
+        ("unread", "back", k)    the last k bytes the consumer holds (k=-1: exactly what the last read call returned):
+                                 a rollback, k smaller / equal / larger than the last result
+        ("unread", "front", k)   the first k bytes of the last result (a rollback only when that is all of it)
+        ("unread", "flip", k)    like back, last byte changed;  ("unread", "flop", k): first byte changed
+        ("unread", "foreign", k) k bytes that never occur in the fed stream"""
+        if len(op) < 3 or not isinstance(op[1], str):
+            return UNREAD
+        mode, k = op[1], op[2]
+        last = self.last
+        if mode == "foreign":
+            return (UNREAD * (k // 2 + 1))[: max(k, 0)]
+        if mode == "front":
+            return last[:k] if k >= 0 else last[:-1]
+        if mode not in ("back", "flip", "flop"):
+            raise HarnessError(f"bad unread op {op}")
+        d = last if k < 0 else bytes(self.returned[-k:]) if k else b""
+        if mode == "back" or not d:
+            return d
+        i = len(d) - 1 if mode == "flip" else 0
+        return d[:i] + (b"U" if d[i : i + 1] != b"U" else b"\n") + d[i + 1 :]
+
+    def unread_class(self, op, data: bytes) -> str:
+        n, ln = len(data), len(self.last)
+        size = "empty" if not n else "less-than-last-read" if n < ln else "as-much-as-last-read" if n == ln else "more-than-last-read"
+        s = self.stream
+        state = (
+            ("after-eof" if s._eof else "open")
+            + (":head-partly-consumed" if s._buffer_offset else "")
+            + (":several-pieces-buffered" if len(s._buffer) > 1 else ":empty-buffer" if not s._buffer else "")
+            + (":chunk-ends-pending" if s._http_chunk_splits else "")
+        )
+        self.cnt("unread-state:" + state)
+        what = "is-tail-of-returned-bytes" if n and self.returned.endswith(data) else "not-the-bytes-just-read" if n else "nothing"
+        return f"{size}:{what}"
+
+    def after_unread(self, data: bytes, pure) -> None:
+        if not data:
+            return
+        if pure and self.returned.endswith(data):
+            del self.returned[len(self.returned) - len(data) :]
+            self.cnt("unread:rollback-of-stream-bytes(provenance kept)")
+        else:
+            self.conservation_off = True
+
+    def unread_while_blocked(self, op) -> bool:
+        """unread_data while a read call is waiting: the data must be accounted and come first once the reader is
+        released by an arrival / chunk end / eof; whether unread_data itself releases the reader is left open"""
+        data = self.unread_bytes(op)
+        self.cnt("unread-while-reader-blocked")
+        self.cnt("unread-blocked:" + self.unread_class(op, data))
+        try:
+            self.stream.unread_data(data)
+        except C08InvariantBroken as e:
+            self.violation("icontract:" + e.name, f"class invariant broken around {op} while {self.call_op} waits: {str(e)[:300]}")
+            return True
+        except BaseException as e:
+            self.violation(f"unread:while-blocked:raised-{type(e).__name__}", f"{e!r}")
+            return True
+        self.model.unread(data, self.call)
+        self.after_unread(data, False)
+        self.dirty = True
+        self.settle()
         return True
 
     def classify_exc(self, e):
@@ -767,6 +860,10 @@ class World:
         call = self.call
         m = self.model
         obs = self.observe()
+        m.hint_buffered = None
+        if obs is not None and obs[0] == "raise" and obs[1] == "linetoolong":
+            # buffered bytes right after the failed call, net of what a re-entrant resume fed meanwhile
+            m.hint_buffered = self.stream._size - sum(o[1] for o, _, _ in self.reentrant if o[0] == "D")
         pos0 = m.pos - len(m.head)
         before = call.consumed
         out = m.advance(call, obs)
@@ -829,12 +926,17 @@ class World:
                     v, flag = v
                 if v:
                     self.returned += v
+                if call.kind == "unread":
+                    self.after_unread(call.sep, call.pure)
+                else:
+                    self.last = bytes(v) if v else b""
                 if flag:
                     self.flagged.append(len(self.returned))
                 self.cnt("outcome:" + call.kind + (":data" if v else ":empty"))
             elif obs[0] == "raise":
                 if obs[1] == "incomplete":
                     self.returned += obs[2][0]
+                    self.last = bytes(obs[2][0])
                 self.cnt("outcome:" + call.kind + ":raise-" + obs[1])
             else:
                 self.cnt("outcome:" + call.kind + ":stop")
@@ -1074,7 +1176,7 @@ class World:
             self.consume(op)
             if self.viol:
                 return
-        if not m.unread_used and m.discarded == 0:
+        if not m.unread_used and m.discarded == 0 and not self.conservation_off:
             want = self.content(0, m.fed)
             if bytes(self.returned) != want:
                 self.violation(
@@ -1084,6 +1186,8 @@ class World:
                 )
             else:
                 self.cnt("conservation:checked")
+                if m.rollbacks:
+                    self.cnt("conservation:checked-with-rollbacks")
                 self.cnt("conservation:bytes", m.fed)
             if self.only_readchunk and self.n_consumer and not self.viol:
                 # readchunk alone: the flagged boundaries are exactly the sender's (ends of empty chunks may or may not show)
@@ -1135,9 +1239,10 @@ def make_content(cspec) -> Content:
     return Content(big_table(cspec[1]), cspec[2])
 
 
-def run_program(ops, limit, gated, cspec, stats, epilogue=True):
+def run_program(ops, limit, gated, cspec, stats, epilogue=True, enumerating=False):
     """returns (world, status) with status 'ok' | 'illegal:<index>'"""
     w = World(get_loop(), limit, make_content(cspec), gated, stats)
+    w.skip_empty_rollback = enumerating
     status = "ok"
     try:
         for i, op in enumerate(ops):
@@ -1257,8 +1362,9 @@ def run_node(prefix, limit, rec, stats, record: bool):
     """run one program under the delivery variants that can differ; returns (pending_at_end, legal)"""
     cspec = ("small",)
     ops = with_settle(prefix, 1)
-    w, st = run_program(ops, limit, False, cspec, stats)
+    w, st = run_program(ops, limit, False, cspec, stats, enumerating=True)
     if st != "ok":
+        rec.count("exhaustive:pruned-" + w.illegal)
         return False, False
     if record:
         record_world(rec, w, (prefix, limit, "direct-step"))
@@ -1285,7 +1391,7 @@ def run_node(prefix, limit, rec, stats, record: bool):
     batch_paused = False
     for gated, settle, name in todo:
         ops2 = with_settle(prefix, settle)
-        w2, st2 = run_program(ops2, limit, gated, cspec, stats)
+        w2, st2 = run_program(ops2, limit, gated, cspec, stats, enumerating=True)
         if st2 != "ok":
             rec.count("variant-diverged-outstanding-read:" + name)
             continue
@@ -1298,7 +1404,7 @@ def run_node(prefix, limit, rec, stats, record: bool):
         _sig(rec, w2)
     if (w.batch_relevant and batch_paused) or (paused_seen and w.consecutive_producers):
         ops2 = with_settle(prefix, 0)
-        w2, st2 = run_program(ops2, limit, True, cspec, stats)
+        w2, st2 = run_program(ops2, limit, True, cspec, stats, enumerating=True)
         if st2 != "ok":
             rec.count("variant-diverged-outstanding-read:gated-batch")
         else:
@@ -1332,7 +1438,6 @@ def enumerate_programs(limit, maxlen, nshards, sub, rec, stats):
     def dfs(prefix, g, depth, record):
         pending, legal = run_node(prefix, limit, rec, stats, record)
         if not legal:
-            rec.count("exhaustive:pruned-second-reader-while-blocked")
             return
         if record:
             counter["nodes"] += 1
@@ -1346,7 +1451,7 @@ def enumerate_programs(limit, maxlen, nshards, sub, rec, stats):
             if g2 is None:
                 continue
             is_cons = op[0] not in PRODUCERS
-            if is_cons and pending and op[0] != "read_nowait":
+            if is_cons and pending and op[0] not in ("read_nowait", "unread"):
                 continue
             rec2 = record
             if depth + 1 == PART_DEPTH:
@@ -1381,6 +1486,26 @@ def _sizes(rng, L):
     return rng.randint(1, 5 * L)
 
 
+def _unread_op(rng, w, L):
+    """an unread_data op: mostly rollbacks of what was read (as multipart's body reader does), sized around the last result"""
+    r = rng.random()
+    if r < 0.12:
+        return ("unread", 0)
+    ln = len(w.last)
+    k = rng.choice((1, 1, 2, 3, ln - 1, ln, ln, ln + 1, ln + 2, ln // 2, ln + L, 2 * L + 1, -1, -1))
+    if k <= 0:
+        k = -1 if ln or rng.random() < 0.15 else rng.choice((1, 2, 3, L))
+    if r < 0.62:
+        return ("unread", "back", k)
+    if r < 0.72:
+        return ("unread", "front", k)
+    if r < 0.82:
+        return ("unread", "flip", k)
+    if r < 0.90:
+        return ("unread", "flop", k)
+    return ("unread", "foreign", min(abs(k), 4 * L + 2))
+
+
 def run_random(rng, limit, rec, stats):
     gated = rng.random() < 0.5
     chunked = rng.random() < 0.55
@@ -1395,6 +1520,8 @@ def run_random(rng, limit, rec, stats):
     cap = 5 * limit
     w = World(get_loop(), limit, content, gated, stats)
     readchunk_only = chunked and rng.random() < 0.25
+    # a third of the programs peek: read, push (part of) it back, read again with whatever method comes next
+    unread_heavy = rng.random() < 0.34
     # the two-byte separator is used in a quarter of the programs only: the listed separator-split mechanism ends a
     # program at its first occurrence and must not thin out the other strata
     use_sep2 = rng.random() < 0.25
@@ -1445,12 +1572,14 @@ def run_random(rng, limit, rec, stats):
                         op = ("B", 0, settle)
             else:
                 if pending:
-                    op = ("read_nowait", rng.choice((1, -1)))
+                    op = _unread_op(rng, w, limit) if rng.random() < 0.4 else ("read_nowait", rng.choice((1, -1)))
                 else:
                     r = rng.random()
                     L = limit
                     n = rng.choice((1, 2, 3, max(1, L // 2), L, L + 1, 2 * L, 2 * L + 1, 3 * L))
-                    if readchunk_only:
+                    if unread_heavy and rng.random() < 0.25:
+                        op = _unread_op(rng, w, L)
+                    elif readchunk_only:
                         op = ("readchunk", 0) if r < 0.7 else ("iter_chunks", 0)
                     elif r < 0.16:
                         op = ("read", n)
@@ -1479,7 +1608,7 @@ def run_random(rng, limit, rec, stats):
                     elif r < 0.93:
                         op = ("iter_line", 0)
                     elif r < 0.975:
-                        op = ("unread", 0)
+                        op = _unread_op(rng, w, L)
                     elif r < 0.985 and i > nops // 2:
                         op = ("read", -1)
                     else:
